@@ -5,9 +5,9 @@ C17 -- sorting is a stable multi-key permutation with errors last.
 import ast
 import re
 
-from .. import AnalysisError, rx, flow
+from .. import AnalysisError, rx, flow, ccp
 from ..fold import is_unknown
-from ..srcmodel import walk_local, norm, dotted, guards
+from ..srcmodel import walk_local, norm, dotted, guards, literals
 from . import common, forward
 from .c12 import anchored_calls
 
@@ -24,74 +24,133 @@ META = {
 }
 
 
+DOC_KEYS = {'i.num', 't.ns', 't.sn', 't.num', 'r.ew', 'r.we', 'r.num', 's.num'}
+COMPONENT = {'t': ('twp_num', 'twp_ns'), 'r': ('rge_num', 'rge_ew'), 's': ('sec_num', None)}
+
+
 def check(ctx):
     ctx.consult('containers/containers.py')
     fi = ctx.repo.func('_TRSTractList._sort_custom')
     env = ctx.fold.func_env(fi)
     pat, legal, sort_defs = env.get('pat'), env.get('legal_methods'), env.get('sort_defs')
-    if is_unknown(pat) or is_unknown(legal) or is_unknown(sort_defs) or not isinstance(sort_defs, dict):
-        raise AnalysisError("_sort_custom: pat / legal_methods / sort_defs do not fold")
+    if is_unknown(pat) or not isinstance(pat, str):
+        raise AnalysisError("_sort_custom: key pattern does not fold")
+    if is_unknown(sort_defs) or not isinstance(sort_defs, dict):
+        raise AnalysisError("_sort_custom: sort_defs does not fold")
+    if legal is not None and (is_unknown(legal) or not isinstance(legal, dict)):
+        legal = None
+    ctx.attempt(_key_grammar, fi, pat, legal, sort_defs)
+    ctx.attempt(_case_discipline, fi)
+    ctx.attempt(_defaults, fi, env)
+    ctx.attempt(_sign_tables, fi)
+    ctx.attempt(_key_purity, fi)
+    ctx.attempt(_perm, fi)
+    ctx.attempt(forward.check_all, module_suffixes=('containers.containers',))
+
+
+def _key_grammar(ctx, fi, pat, legal, sort_defs):
     gf = rx.groups(pat, 0)
     for g in ('var', 'method', 'rev'):
         if g not in gf:
             raise AnalysisError(f"_sort_custom key pattern lacks group {g}")
     var_alts = set(rx.literal_alternatives(gf['var'].node) or [])
     meth_alts = set(rx.literal_alternatives(gf['method'].node) or [])
-    ctx.check(var_alts == set(legal), 'TBL', 'key pattern variables == legal_methods keys',
-              detail_bad=f"pattern {sorted(var_alts)} vs table {sorted(legal)}", key="TBL|_sort_custom|vars")
-    union = {m for ms in legal.values() for m in ms if m is not None}
-    ctx.check(meth_alts == union, 'TBL', 'key pattern methods == union of legal methods',
-              detail_bad=f"pattern {sorted(meth_alts)} vs table {sorted(union)}", key="TBL|_sort_custom|methods")
-    for v, ms in legal.items():
-        ctx.check(None in ms and 'num' in ms, 'TBL', f"variable {v!r}: default method 'num' is legal",
-                  detail_bad=f"legal_methods[{v!r}] = {ms}", key=f"TBL|_sort_custom|default|{v}")
-        for m in ms:
-            if m is None:
-                continue
-            ctx.check(f"{v}.{m}" in sort_defs, 'TBL', f"sort_defs has '{v}.{m}'",
-                      detail_bad=f"legal key '{v}.{m}' has no sort definition (KeyError)",
-                      key=f"TBL|_sort_custom|sort_defs|{v}.{m}")
-    for k in sort_defs:
-        v, m = k.split('.')
-        ctx.check(v in legal and m in legal[v], 'TBL', f"sort_defs key {k!r} is reachable",
-                  detail_bad=f"{k!r} is not a legal variable/method pair", key=f"TBL|_sort_custom|reach|{k}")
-    # documented direction methods
-    ctx.check({'ns', 'sn', 'num'} <= set(legal.get('t', ())) and {'ew', 'we', 'num'} <= set(legal.get('r', ()))
-              and not ({'ns', 'sn'} & set(legal.get('r', ()))) and not ({'ew', 'we'} & set(legal.get('t', ())))
-              and set(legal.get('s', ())) == {'num', None} and set(legal.get('i', ())) == {'num', None},
-              'TBL', 'direction methods belong to the right variable',
-              detail_bad=f"legal_methods = {legal}", key="TBL|_sort_custom|directions")
+    doc_vars = {k.split('.')[0] for k in DOC_KEYS}
+    doc_meths = {k.split('.')[1] for k in DOC_KEYS}
+    ctx.check(var_alts == doc_vars, 'TBL', 'key pattern variables are i, t, r, s',
+              detail_bad=f"pattern accepts variables {sorted(var_alts)}", key="TBL|_sort_custom|vars")
+    ctx.check(meth_alts == doc_meths, 'TBL', 'key pattern methods are ns, sn, ew, we, num',
+              detail_bad=f"pattern accepts methods {sorted(meth_alts)}", key="TBL|_sort_custom|methods")
     L = rx.Lang(pat, 0)
     for k in ('i', 's', 'r', 't', 't.ns', 't.sn', 'r.ew', 'r.we', 's.num', 't.num.rev', 's.rev', 'r.ew.rev', 'i.rev'):
         ctx.check(L.fullmatch(k), 'RX-LANG', f"key syntax accepts {k!r}", detail_bad=f"{k!r} rejected by the key pattern",
                   key=f"RX-LANG|_sort_custom|{k}")
     pk = ctx.repo.func('_TRSTractList._sort_custom.parse_key')
     ctx.attempt(anchored_calls, pk, min_calls=1)
-    t = ' '.join(norm(s) for s in walk_local(pk.node) if isinstance(s, ast.stmt))
-    ctx.shape(any(isinstance(n, ast.Raise) for n in walk_local(pk.node)), 'TBL',
-              'an uninterpretable key raises ValueError', why="no raise statement recognised in parse_key")
-    ok = any(isinstance(n, ast.Raise) and 'ValueError' in norm(n) and any(
-        norm(tst) == 'method not in legal_methods[var]' and pol for tst, pol in guards(n))
-        for n in walk_local(pk.node))
-    ok2 = ok or any(isinstance(n, ast.Raise) and any('legal_methods' in norm(tst) for tst, pol in guards(n))
-                    for n in walk_local(pk.node))
-    ctx.shape(ok2, 'TBL', 'a method that does not apply to the variable raises ValueError',
-              why="no raise guarded by a legal_methods test recognised")
-    ctx.shape("method = 'num'" in t and "rev = mo.group('rev') is not None" in t
-              and "var_method = f'{var}.{method}'" in t.replace('"', "'"), 'TBL',
-              "parse_key: default method 'num', rev from the .rev group, key '<var>.<method>'")
-    illegal = [n for n in walk_local(fi.node) if isinstance(n, ast.Assign) and norm(n.targets[0]) == 'illegal_key_error']
-    bad_t = bool(illegal) and isinstance(illegal[0].value, ast.Call) and \
-        (dotted(illegal[0].value.func) or '') not in ('ValueError',) and \
-        (dotted(illegal[0].value.func) or '').endswith('Error')
-    ctx.tri(bool(illegal) and norm(illegal[0].value).startswith('ValueError('), bad_t, 'TBL',
-            'illegal_key_error is a ValueError',
-            detail_bad=f"an uninterpretable key raises {norm(illegal[0].value)[:40] if illegal else ''}, not ValueError",
-            key="TBL|_sort_custom|illegal_key_error")
+    # which (variable, method) pairs get past parse_key: read off the guard of
+    # its `raise` statements
+    raises = [n for n in walk_local(pk.node) if isinstance(n, ast.Raise)]
+    ctx.shape(bool(raises), 'TBL', 'an uninterpretable key raises', why="no raise statement in parse_key")
+    accepted = None
+    how = None
+    for r_ in raises:
+        for _e, txt, pol in literals(guards(r_)):
+            t = txt.replace('"', "'")
+            if t == 'method in legal_methods[var]' and not pol and legal is not None:
+                accepted = {f"{v}.{m}" for v, ms in legal.items() for m in ms if m is not None}
+                how = 'legal_methods'
+                ctx.check(all(None in ms or 'num' in ms for ms in legal.values()), 'TBL',
+                          "every variable accepts its default method",
+                          detail_bad=f"legal_methods = {legal}", key="TBL|_sort_custom|default")
+            elif t in ('var_method in sort_defs', "f'{var}.{method}' in sort_defs",
+                       'var_method in sort_defs.keys()') and not pol:
+                accepted = set(sort_defs)
+                how = 'sort_defs keys'
+    if accepted is None:
+        ctx.undecided('TBL', 'accepted variable/method pairs', 'legality guard of parse_key not recognised')
+    else:
+        extra, missing = accepted - DOC_KEYS, DOC_KEYS - accepted
+        ctx.check(not extra, 'TBL', f"no direction is accepted for a variable it does not apply to (via {how})",
+                  f"{sorted(accepted)}",
+                  f"parse_key lets {sorted(extra)} through: a direction that does not apply to the variable is not "
+                  f"rejected with ValueError", key=f"TBL|_sort_custom|accepted-extra|{','.join(sorted(extra))}")
+        ctx.check(not missing, 'TBL', 'every documented key is accepted',
+                  detail_bad=f"documented keys {sorted(missing)} are rejected", key=f"TBL|_sort_custom|accepted-missing|{','.join(sorted(missing))}")
+        nodef = accepted - set(sort_defs)
+        ctx.check(not nodef, 'TBL', 'every accepted key has a sort definition',
+                  detail_bad=f"accepted keys {sorted(nodef)} have no entry in sort_defs (KeyError)",
+                  key=f"TBL|_sort_custom|nodef|{','.join(sorted(nodef))}")
+    # the exception type
+    for r_ in raises:
+        exc = r_.exc
+        name = None
+        if isinstance(exc, ast.Call):
+            name = dotted(exc.func)
+        elif isinstance(exc, ast.Name):
+            defs = [n for n in walk_local(fi.node) if isinstance(n, ast.Assign) and norm(n.targets[0]) == exc.id
+                    and isinstance(n.value, ast.Call)]
+            name = dotted(defs[0].value.func) if defs else None
+        ctx.tri(name == 'ValueError', bool(name) and name.endswith('Error') and name != 'ValueError', 'TBL',
+                f"parse_key raises ValueError (`{norm(r_)[:40]}`)",
+                detail_bad=f"an uninterpretable key raises {name}, not ValueError",
+                key=f"TBL|_sort_custom|exctype|{name}")
+    # method default and key assembly
+    t = ' '.join(norm(s) for s in walk_local(pk.node) if isinstance(s, ast.stmt)).replace('"', "'")
+    ctx.shape("method = 'num'" in t and "mo.group('rev') is not None" in t, 'TBL',
+              "parse_key: default method 'num', rev from the .rev group")
 
-    ctx.attempt(_defaults, fi, env)
-    ctx.attempt(_perm, fi)
-    ctx.attempt(forward.check_all, module_suffixes=('containers.containers',))
+
+def _case_discipline(ctx, fi):
+    """every case-sensitive operation on the key text (re.sub / fullmatch with
+    lower-case literals, comparisons with lower-case words) sees a lowered
+    key: `S.Reverse` and `s.rev` are the same key."""
+    pk = ctx.repo.func('_TRSTractList._sort_custom.parse_key')
+    n = 0
+    for f, params in ((fi, {'key'}), (pk, set(pk.params()))):
+        fenv = ctx.fold.func_env(fi)
+        for c in walk_local(f.node):
+            if not (isinstance(c, ast.Call) and dotted(c.func) in ('re.sub', 're.fullmatch', 're.match', 're.search', 're.split')):
+                continue
+            patv = ctx.fold.eval(c.args[0], fenv, f.module.name) if c.args else None
+            if not isinstance(patv, str) or not any(ch.isalpha() and ch.islower() for ch in re.sub(r"\\.|\(\?P<[^>]*>", '', patv)):
+                continue
+            flags = [a for a in c.args[3:]] + [k.value for k in c.keywords if k.arg == 'flags']
+            if any('I' in norm(x) for x in flags):
+                continue
+            subject = c.args[2] if dotted(c.func) == 're.sub' and len(c.args) > 2 else (c.args[1] if len(c.args) > 1 else None)
+            if subject is None:
+                continue
+            prov = flow.provenance(f.node, subject)
+            if not (flow.prov_params(prov) & params):
+                continue
+            n += 1
+            lowered = 'lower' in {x.split('.')[-1] for x in flow.prov_calls(prov)}
+            ctx.check(lowered, 'ORDER', f"{f.qualname.split('.')[-1]}: `{norm(c)[:50]}` sees a lower-cased key",
+                      'subject derives from .lower()',
+                      f"`{norm(c)[:70]}` compares the caller's key with lower-case text but the key has not been "
+                      f"lower-cased at that point: an upper / mixed-case spelling such as 'S.Reverse' takes another path",
+                      key=f"ORDER|_sort_custom|case|{norm(c.args[0])[:30]}", where=common.loc(f, c))
+    ctx.floor('case-sensitive operations on the sort key', n, 1)
 
 
 def _defaults(ctx, fi, env):
@@ -130,56 +189,7 @@ def _defaults(ctx, fi, env):
     ctx.check(used <= set(assume) and used, 'TBL', 'every attribute given to extract_safe_num has an assumed value',
               detail_bad=f"used {sorted(used)} vs assume {sorted(assume)} (KeyError for a missing one)",
               key="TBL|_sort_custom|assume-keys")
-    # each sort_defs lambda uses its own variable's attribute / helper
-    pairs = {'t.num': "extract_safe_num(x, 'twp_num')", 'r.num': "extract_safe_num(x, 'rge_num')",
-             's.num': "extract_safe_num(x, 'sec_num')", 't.ns': 'n_to_s(x)', 't.sn': 'n_to_s(x, reverse=True)',
-             'r.we': 'w_to_e(x)', 'r.ew': 'w_to_e(x, reverse=True)', 'i.num': 'i_sort_evaluate'}
-    sd = None
-    for n in walk_local(fi.node):
-        if isinstance(n, ast.Assign) and norm(n.targets[0]) == 'sort_defs' and isinstance(n.value, ast.Dict):
-            sd = {k.value: norm(v.body if isinstance(v, ast.Lambda) else v)
-                  for k, v in zip(n.value.keys, n.value.values) if isinstance(k, ast.Constant)}
-    if sd is None:
-        raise AnalysisError("_sort_custom: sort_defs literal not found")
-    other = {'t': ('rge_num', 'sec_num', 'w_to_e'), 'r': ('twp_num', 'sec_num', 'n_to_s'),
-             's': ('twp_num', 'rge_num', 'n_to_s', 'w_to_e'), 'i': ('twp_num', 'rge_num', 'sec_num')}
-    for k, want in pairs.items():
-        got = sd.get(k, '').replace('"', "'")
-        bad = any(o in got for o in other[k[0]])
-        if k in ('t.ns', 't.sn', 'r.we', 'r.ew') and got:
-            # direction flag must match: plain for ns/we, reverse=True for sn/ew
-            if ('reverse=True' in got) != (k in ('t.sn', 'r.ew')) and ('n_to_s(' in got or 'w_to_e(' in got):
-                bad = True
-        ctx.tri(got == want, bad, 'TBL', f"sort_defs[{k!r}] evaluates {want}",
-                detail_bad=f"sort_defs[{k!r}] = {sd.get(k)}: sorts by another component / direction",
-                key=f"TBL|_sort_custom|def|{k}")
-    # direction helpers: attribute read <-> substitute
-    for helper, attr, dirattr in (('n_to_s', 'twp_num', 'twp_ns'), ('w_to_e', 'rge_num', 'rge_ew')):
-        h = ctx.repo.func(f"_TRSTractList._sort_custom.{helper}")
-        t = [norm(s) for s in walk_local(h.node) if isinstance(s, ast.stmt)]
-        reads = {n.attr for n in ast.walk(h.node) if isinstance(n, ast.Attribute) and norm(n.value) == 'element'}
-        wrong = reads - {attr, dirattr}
-        ctx.tri(reads == {attr, dirattr}, bool(wrong & {'twp_num', 'rge_num', 'sec_num', 'twp_ns', 'rge_ew'}), 'SIB',
-                f"{helper} reads element.{attr} / element.{dirattr}",
-                detail_bad=f"{helper} reads {sorted(wrong)} of the element: it orders by another component",
-                key=f"SIB|{helper}|reads")
-        subs = [n for n in walk_local(h.node) if isinstance(n, ast.Assign) and norm(n.targets[0]) == 'num'
-                and isinstance(n.value, ast.Name) and any(norm(tt) == 'num is None' and pol for tt, pol in guards(n))]
-        # every default_<x> name used in the helper must be the one of its own component
-        used_d = {n.id for n in ast.walk(h.node) if isinstance(n, ast.Name) and n.id in dflt}
-        wrong_d = {d for d in used_d if dflt[d] != attr}
-        ctx.tri(bool(used_d) and not wrong_d, bool(wrong_d), 'SIB',
-                f"{helper}: a missing {attr} is replaced by max({attr})+1",
-                detail_bad=f"{helper} substitutes {sorted(wrong_d)} (max+1 of {[dflt[d] for d in sorted(wrong_d)]}) for a "
-                           f"missing {attr}: error elements are not guaranteed to sort after all valid ones",
-                key=f"SIB|{helper}|substitute", where=h.loc)
-        ctx.shape(any('multiplier *= -1 if reverse else 1' in x for x in t), 'SIB',
-                  f"{helper}: error elements keep their end of the list in both directions",
-                  why="sign arithmetic restructured (not decided)")
-    es = ctx.repo.func('_TRSTractList._sort_custom.extract_safe_num')
-    t = [norm(s) for s in walk_local(es.node) if isinstance(s, ast.stmt)]
-    ctx.shape('val = getattr(tract, var)' in t and 'val = assume[var]' in t, 'SIB',
-              'extract_safe_num substitutes assume[var] for a missing number')
+    ctx.notes['sort_defaults'] = dflt
     gm = ctx.repo.func('_TRSTractList._sort_custom.get_max')
     t = ' '.join(norm(s) for s in walk_local(gm.node) if isinstance(s, ast.stmt))
     ctx.tri('return max(nums)' in t and 'return 0' in t and 'is not None' in t,
@@ -193,6 +203,119 @@ def _defaults(ctx, fi, env):
             'SIB', "the 'i' key orders Tracts by the global creation counter",
             detail_bad=f"i_sort_evaluate returns {sorted(attrs_ret)}: not the creation counter (tracts created by "
                        f"different descriptions share index values)", key="SIB|i_sort_evaluate")
+
+
+
+def _scope(ctx, fi):
+    """constant environment of _sort_custom for the propagator: the
+    default_<c> substitutes as symbols, the assume table, the nested helpers
+    and the sort_defs table."""
+    dflt = ctx.notes.get('sort_defaults') or {}
+    scope = {'Tract': 'Tract'}
+    for name, comp in dflt.items():
+        scope[name] = ccp.Sym(f"max+1({comp})")
+    for n in fi.node.body:
+        if isinstance(n, ast.FunctionDef):
+            scope[n.name] = ccp.FuncRef(n, scope)
+    for n in fi.node.body:
+        if isinstance(n, ast.Assign) and len(n.targets) == 1 and isinstance(n.targets[0], ast.Name) \
+                and n.targets[0].id in ('assume', 'sort_defs'):
+            try:
+                scope[n.targets[0].id] = ccp.ev(n.value, scope)
+            except ccp.Unsupported:
+                pass
+    return scope
+
+
+def _sign_tables(ctx, fi):
+    """Conditional constant propagation through sort_defs[<key>] for each
+    class of element: a valid component yields +/- its own number with the
+    sign the direction asks for; an error / undefined component yields
+    +(max+1) of the SAME component for every key, so it sorts after all valid
+    ones (and first when the pass is reversed by list.sort(reverse=True))."""
+    scope = _scope(ctx, fi)
+    sd = scope.get('sort_defs')
+    if not isinstance(sd, dict):
+        ctx.undecided('SIB', 'sort key functions', 'sort_defs table not propagated')
+        return
+    want_sign = {'t.num': {'n': 1, 's': 1}, 't.ns': {'n': -1, 's': 1}, 't.sn': {'n': 1, 's': -1},
+                 'r.num': {'e': 1, 'w': 1}, 'r.we': {'w': -1, 'e': 1}, 'r.ew': {'w': 1, 'e': -1},
+                 's.num': {None: 1}}
+    n = 0
+    for key, signs in want_sign.items():
+        if key not in sd:
+            continue
+        num_attr, dir_attr = COMPONENT[key[0]]
+        base = dict(twp_num=ccp.Sym('twp_num'), twp_ns='n', rge_num=ccp.Sym('rge_num'), rge_ew='w',
+                    sec_num=ccp.Sym('sec_num'))
+        cases = []
+        for d, sg in signs.items():
+            attrs = dict(base)
+            if dir_attr:
+                attrs[dir_attr] = d
+            cases.append((f"valid {num_attr}" + (f", {dir_attr}={d!r}" if dir_attr else ''), attrs, ccp.Sym(num_attr, sg)))
+        err = dict(base)
+        err[num_attr] = None
+        if dir_attr:
+            err[dir_attr] = None
+        cases.append((f"error/undefined {num_attr}", err, ccp.Sym(f"max+1({num_attr})", 1)))
+        for label, attrs, want in cases:
+            construct = f"sort_defs[{key!r}] on an element with {label} -> {want}"
+            try:
+                got = ccp.call(sd[key], [ccp.Obj(**attrs)], {}, scope) if isinstance(sd[key], ccp.FuncRef) else None
+            except ccp.Unsupported as e:
+                ctx.undecided('SIB', construct, f"not propagated ({e})")
+                continue
+            if got is None and not isinstance(sd[key], ccp.FuncRef):
+                ctx.undecided('SIB', construct, 'sort_defs entry is not a function of the scope')
+                continue
+            n += 1
+            if isinstance(got, ccp.Sym) and got == want:
+                ctx.ok('SIB', construct, 'constant propagation')
+            elif isinstance(got, ccp.Sym):
+                what = ("error / undefined elements do not sort after all valid ones for this key"
+                        if 'error' in label else "the order of valid elements is not the one the key names")
+                ctx.violation('SIB', construct, f"the key function yields {got} for this class of element: {what}",
+                              key=f"SIB|_sort_custom|{key}|{label.split(',')[-1].strip()}|{got}", where=fi.loc)
+            else:
+                ctx.undecided('SIB', construct, f"folded to {got!r}")
+    ctx.floor('sort key classes propagated', n, 10)
+
+
+def _key_purity(ctx, fi):
+    """list.sort() empties the list while it runs, so a key function (and
+    anything it calls) must not look at the list being sorted."""
+    nested = {n.name: n for n in fi.node.body if isinstance(n, ast.FunctionDef)}
+    sdn = [n for n in fi.node.body if isinstance(n, ast.Assign) and norm(n.targets[0]) == 'sort_defs']
+    if not sdn or not isinstance(sdn[0].value, ast.Dict):
+        ctx.undecided('PURITY', 'sort key functions do not read the list', 'sort_defs literal not found')
+        return
+    reach, work = set(), []
+    for v in sdn[0].value.values:
+        for x in ast.walk(v):
+            if isinstance(x, ast.Name) and x.id in nested:
+                work.append(x.id)
+    while work:
+        f = work.pop()
+        if f in reach:
+            continue
+        reach.add(f)
+        for x in ast.walk(nested[f]):
+            if isinstance(x, ast.Name) and x.id in nested and x.id not in reach:
+                work.append(x.id)
+    bad = []
+    for f in sorted(reach):
+        for x in ast.walk(nested[f]):
+            if isinstance(x, ast.Name) and x.id == 'self' and isinstance(x.ctx, ast.Load):
+                bad.append((f, x))
+    for v in sdn[0].value.values:
+        for x in ast.walk(v):
+            if isinstance(x, ast.Name) and x.id == 'self':
+                bad.append(('sort_defs lambda', x))
+    ctx.check(not bad, 'PURITY', f"sort key functions ({', '.join(sorted(reach))}) never read the list being sorted",
+              detail_bad=f"{bad[0][0] if bad else ''} reads `self` while list.sort() runs (the list is empty during "
+                         f"the sort: maxima computed there are 0, so error elements get the value 1)",
+              key=f"PURITY|_sort_custom|{bad[0][0] if bad else ''}", where=common.loc(fi, bad[0][1]) if bad else None)
 
 
 def _perm(ctx, fi):
@@ -218,9 +341,24 @@ def _perm(ctx, fi):
               detail_bad="keys iterated in another order", key="PERM|_sort_custom|order")
     s = ctx.repo.func('_TRSTractList.sort')
     t = ' '.join(norm(x) for x in walk_local(s.node) if isinstance(x, ast.stmt))
-    ctx.tri('self._elements.sort(key=key, reverse=reverse)' in t, 'sorted(' in t and '_elements =' in t, 'PERM',
-            'TractList.sort permutes _elements in place with list.sort (stable)',
-            detail_bad="sort rebinds _elements to a sorted copy", key="PERM|sort")
+    sorts = [c for c in walk_local(s.node) if isinstance(c, ast.Call) and isinstance(c.func, ast.Attribute)
+             and c.func.attr == 'sort' and norm(c.func.value) == 'self._elements']
+    flips = [c for c in walk_local(s.node)
+             if (isinstance(c, ast.Call) and isinstance(c.func, ast.Attribute) and c.func.attr == 'reverse')
+             or (isinstance(c, ast.Call) and dotted(c.func) == 'reversed')
+             or (isinstance(c, ast.Subscript) and isinstance(c.slice, ast.Slice) and c.slice.step is not None
+                 and norm(c.slice.step) == '-1')]
+    rev_ok = False
+    if len(sorts) == 1:
+        kw = {k.arg: k.value for k in sorts[0].keywords if k.arg}
+        if 'reverse' in kw:
+            rev_ok = 'reverse' in flow.prov_params(flow.provenance(s.node, kw['reverse']))
+    ctx.tri(len(sorts) == 1 and rev_ok and not flips, bool(flips) or 'sorted(' in t and '_elements =' in t, 'PERM',
+            'TractList.sort permutes _elements in place with one list.sort(key, reverse=reverse) (stable both ways)',
+            detail_bad=(f"`{norm(flips[0])[:50]}` in sort(): a descending pass done by sorting and then reversing inverts "
+                        f"the order of ties, so the order left by earlier keys is lost" if flips
+                        else "sort rebinds _elements to a sorted copy"),
+            key="PERM|sort|" + ('flip' if flips else 'copy'), where=common.loc(s, flips[0]) if flips else None)
     r = ctx.repo.func('_TRSTractList.reverse')
     ctx.shape(norm(r.node.body[-1]) == 'self._elements.reverse()', 'PERM', 'reverse() is list.reverse on _elements')
     # sorting functions never rebind / filter _elements
